@@ -85,9 +85,10 @@ def q_single_nondefault(a):
 
 def q_noncanonical(a):
     """a non-negated Q child that Django's `&`/`|` would have merged into its parent (same
-    connector, or a single child), or an empty Q as a child"""
+    connector, or a single child), or an empty Q as a child — of a Q with two or more children
+    (those are written with operators)"""
     def bad(x):
-        if x['t'] != 'q':
+        if x['t'] != 'q' or len(x['children']) < 2:
             return False
         for c in x['children']:
             if c['t'] == 'q' and (not c['children'] or
@@ -115,8 +116,79 @@ def unexported_name(a):
     return _any(a, bad)
 
 
-def classify_value(a):
-    """finding ids whose structural predicate the value meets"""
+def mergeable(parent, c):
+    """Django's `&`/`|`/`^` merge this child of `parent` into the parent (or drop it, when empty)"""
+    return c['t'] == 'q' and (not c['children'] or (not c['neg'] and (
+        len(c['children']) == 1 or (c['conn'] or 'AND') == (parent['conn'] or 'AND'))))
+
+
+def differing(a, b):
+    """smallest subtrees of `a` (the original) that differ from the corresponding part of `b`; for a Q
+    whose children differ in number or kind the Q itself is the unit (its operators did that)"""
+    if a == b:
+        return []
+    if a['t'] != b['t']:
+        return [a]
+    t = a['t']
+    if t in ('list', 'tuple'):
+        if len(a['v']) != len(b['v']):
+            return [a]
+        return [d for x, y in zip(a['v'], b['v']) for d in differing(x, y)]
+    if t == 'dict':
+        if [k for k, _ in a['v']] != [k for k, _ in b['v']]:
+            return [a]
+        return [d for (_, x), (_, y) in zip(a['v'], b['v']) for d in differing(x, y)]
+    if t == 'q':
+        if a['conn'] != b['conn'] or a['neg'] != b['neg'] or len(a['children']) != len(b['children']) or \
+                any(x['t'] != y['t'] for x, y in zip(a['children'], b['children'])):
+            return [a]
+        if len(a['children']) >= 2 and any(x != y and mergeable(a, x) for x, y in zip(a['children'], b['children'])):
+            return [a]          # the parent's operator merged this child: the parent is the unit
+        return [d for x, y in zip(a['children'], b['children']) for d in differing(x, y)]
+    if t == 'obj':
+        if a['type'] != b['type'] or len(a['args']) != len(b['args']) or \
+                [k for k, _ in a['kwargs']] != [k for k, _ in b['kwargs']]:
+            return [a]
+        if a['type'] == COMB and any(x['t'] == 'obj' and x['type'] == COMB for x in (a['args'][0], a['args'][2])) and \
+                any(differing(x, y) for x, y in zip(a['args'], b['args'])):
+            return [a]          # regrouping changes both levels at once
+        return [d for x, y in zip(a['args'], b['args']) for d in differing(x, y)] + \
+            [d for (_, x), (_, y) in zip(a['kwargs'], b['kwargs']) for d in differing(x, y)]
+    return [a]
+
+
+def node_finding(n):
+    """which finding explains that THIS node does not come back as it was (None: none does)"""
+    if n['t'] == 'q':
+        kids = n['children']
+        if len(kids) >= 2 and any(mergeable(n, c) for c in kids):
+            return F_QSHAPE
+        if len(kids) == 1 and n['conn'] is not None:
+            return F_Q
+    if n['t'] == 'obj' and n['type'] == COMB:
+        if any(x['t'] == 'obj' and x['type'] == COMB for x in (n['args'][0], n['args'][2])) or \
+                n['args'][1].get('v') not in ('+', '-', '*', '/'):
+            return F_COMB
+    return None
+
+
+def classify_value(a, real=None):
+    """finding ids that explain the observed failure, [] when something is left unexplained"""
+    if real is not None and 'back' in real:
+        subs = differing(canon(a), canon(real['back']))
+        kinds = [node_finding(n) for n in subs]
+        return [] if (not kinds or None in kinds) else sorted(set(kinds))
+    if real is not None and 'render_error' in real:
+        if (real['render_error'] == 'KeyError' and q_xor_multi(a)) or \
+                (real['render_error'] == 'TypeError' and q_single_q_child(a)):
+            return [F_Q]
+        return []
+    if real is not None and 'load_error' in real:
+        if real['load_error'] in ('AttributeError', 'NameError') and unexported_name(a):
+            return [F_NAME]
+        if real['load_error'] in ('SyntaxError', 'NotImplementedError', 'TypeError') and comb_odd_connector(a):
+            return [F_COMB]
+        return []
     out = []
     if q_xor_multi(a) or q_single_q_child(a) or q_single_nondefault(a):
         out.append(F_Q)
@@ -167,7 +239,12 @@ def gen_c13_value(rng):
 
 
 def value_level(ctx, n):
-    seps = [list(p) for p in ctx.variant.get('q_separators', [])]
+    pyr = ctx.variant.get('py_rendering', {})
+    cfg = {'separators': [list(p) for p in ctx.variant.get('q_separators', [])],
+           'single_child_full': bool(pyr.get('q_single_child_full')),
+           'comb_operators': [list(p) for p in pyr.get('comb_operators', [])],
+           'comb_methods': [list(p) for p in pyr.get('comb_methods', [])],
+           'comb_parens': bool(pyr.get('comb_parens'))}
     vals = [gen_c13_value(ctx.rng) for _ in range(n)]
     # corner cases first
     from django.db.models import F, Q, Value
@@ -176,12 +253,12 @@ def value_level(ctx, n):
             F('a') - (F('b') - F('c')), (F('a') - F('b')) - F('c'), Value("it's"), [Q(a="q\"uote") | Q(b='back\\slash')],
             {'k': (1, 'x'), 'a': [None, True]}, OrderedDict([('z', 1), ('a', Q(x=1))])] + vals
     absd = [abs13(v) for v in vals]
-    reqs = [{'op': 'py_roundtrip', 'value': a, 'separators': seps} for a in absd]
+    reqs = [dict(cfg, op='py_roundtrip', value=a) for a in absd]
     outs = ctx.driver.ask(reqs) if ctx.driver else [None] * len(vals)
     wit = {}
     for v, a, m in zip(vals, absd, outs):
         real = real_roundtrip(v)
-        kinds = classify_value(a)
+        kinds = classify_value(a, real)
         ok_rt = 'back' in real and canon(real['back']) == canon(a)
         ctx.case({'value': a}, nontrivial=values.has_object(a), sample_cap=6)
         ctx.count('value:%s' % ('round-trips' if ok_rt else 'render error' if 'render_error' in real else
@@ -386,7 +463,7 @@ def mutation_level(ctx, n_hint, n_direct, wit):
             text = module_text(muts)
         except Exception as e:
             a = abs13(v) if v is not None else {'t': 'null'}
-            kinds = classify_value(a)
+            kinds = classify_value(a, real_roundtrip(v)) if v is not None else []
             rep = {'kind': 'direct', 'value': a, 'error': type(e).__name__}
             if kinds:
                 wit.setdefault(kinds[0], ('rendering the mutation raises %s' % type(e).__name__, rep))
@@ -399,7 +476,11 @@ def mutation_level(ctx, n_hint, n_direct, wit):
         rep = {'kind': 'direct', 'text': text, 'value': a}
         tagsp, what = compare_loaded(ctx, old, muts, text, rep)
         if what:
-            kinds = classify_value(a)
+            # explained only by what the embedded value itself does at the value level
+            kinds = classify_value(a, real_roundtrip(v)) if v is not None else []
+            real = real_roundtrip(v) if v is not None else {}
+            if 'back' in real and canon(real['back']) == canon(a):
+                kinds = []
             if kinds:
                 wit.setdefault(kinds[0], ('mutation level: ' + what, rep))
             else:
@@ -426,8 +507,8 @@ def run(ctx):
                 'get_evolution_content() for hints of the C05 pair space and for constructed ChangeMeta/AddField/'
                 'ChangeField mutations carrying such values, exec()-uted and compared (hint text, simulated signature, '
                 'SQL for a sample); non-trivial = contains an object (Q, expression, enum) or is a module')
-    wit = value_level(ctx, 1500 if quick else 40000)
-    mutation_level(ctx, 60 if quick else 1200, 120 if quick else 3000, wit)
+    wit = value_level(ctx, 6000 if quick else 60000)
+    mutation_level(ctx, 250 if quick else 2500, 500 if quick else 6000, wit)
     for fid, (what, rep) in sorted(wit.items()):
         ctx.fail(fid, WHAT[fid] + ' — ' + what, rep)
 
